@@ -57,6 +57,27 @@ def other_atoms(c):
     return out
 
 
+def find_by_is_match(facts, fn):
+    """every closure handed to Iterator::find in `fn` returns the (un-negated) result of the route filter's is_match"""
+    ok = False
+    for bi, t in fn.calls():
+        if (t['callee'].get('path') or '') != 'std::iter::Iterator::find':
+            continue
+        for a in t['args'][1:]:
+            if a[0] == 'k' or not is_local(a[1]):
+                continue
+            cd = fn.locals[a[1][0]].get('closure')
+            g = facts.fn(cd, required=False) if cd else None
+            if g is None:
+                return False
+            rets = [(t2['callee'].get('path') or '') for _, t2 in g.calls() if t2['dest'] == [0]]
+            if len(rets) == 1 and rets[0].endswith('::is_match'):
+                ok = True
+            else:
+                return False
+    return ok
+
+
 def end_like(ctx, adt, route):
     facts = ctx.facts
     fn = facts.method(adt, 'next', trait=OP)
@@ -80,8 +101,15 @@ def end_like(ctx, adt, route):
             v = inputs_of([c])
             if v <= DATA:
                 if route:
-                    # route: enqueue guarded only by the route predicate `is_match`
-                    bad = [a for a in extra if not (a[0] == 'bool' and 'is_match' in a[1] and a[2] is True)]
+                    # route: enqueue guarded only by the route predicate `is_match`, either tested in a loop over the routes or as
+                    # the predicate of `find` over the routes in their stored order (first match wins in both forms)
+                    def first_match(a):
+                        if a[0] == 'bool' and 'is_match' in a[1] and a[2] is True:
+                            return True
+                        if a[0] == 'is' and a[2] == 'Some' and 'Iterator::find(' in a[1] and 'endpoints' in a[1] and 'rev(' not in a[1]:
+                            return find_by_is_match(facts, fn)
+                        return False
+                    bad = [a for a in extra if not first_match(a)]
                 else:
                     bad = extra
                 if bad:
